@@ -159,6 +159,11 @@ class World(object):
             if self.asked > (2 if self.path == 'bulk' else 1):
                 ev['asked_n'] = self.asked
             self.settle()
+        elif op == 'remove':
+            from mapproxy.cache.tile import Tile
+            k = int(t[1:])
+            self.cache.remove_tile(Tile((k, 0, 0)))
+            self.mtimes.pop(k, None)
         elif op == 'expire':
             self.stamp += 10
             os.utime(self.marker, (BASE + self.stamp, BASE + self.stamp))
@@ -192,7 +197,7 @@ def compare(ev, st):
     return None
 
 
-OPS = {'Request': 'request', 'ExpireAll': 'expire', 'Fail': 'fail', 'Recover': 'recover'}
+OPS = {'Request': 'request', 'ExpireAll': 'expire', 'Fail': 'fail', 'Recover': 'recover', 'Remove': 'remove'}
 
 
 def replay_behaviour(beh, path, handler, auth_stale):
@@ -221,9 +226,14 @@ def random_history(rng, n, path, handler, auth_stale):
         fresh = False
         for _ in range(n):
             k = rng.random()
-            if k < 0.6:
+            if k < 0.55:
                 evs.append(w.do('request', rng.choice(TILES)))
-            elif k < 0.75:
+            elif k < 0.65:
+                there = [t for t, _v, _s in (evs[-1]['store'] if evs else [])]
+                if not there:
+                    continue
+                evs.append(w.do('remove', rng.choice(there)))
+            elif k < 0.78:
                 if not any(not s for _t, _v, s in (evs[-1]['store'] if evs else [])):
                     continue
                 evs.append(w.do('expire'))
@@ -303,8 +313,8 @@ def run(ctx):
         else:
             ctx.add_tlc('ErrPolicy/%s/%s/%s' % wd, r)
             taken |= {a for a, c in r.coverage.items() if c[0] > 0}
-    if not ctx.violations and {'Request', 'ExpireAll', 'Fail', 'Recover'} - taken:
-        raise tlc.MachineryError('vacuity: actions never taken: %s' % sorted({'Request', 'ExpireAll', 'Fail', 'Recover'} - taken))
+    if not ctx.violations and {'Request', 'ExpireAll', 'Fail', 'Recover', 'Remove'} - taken:
+        raise tlc.MachineryError('vacuity: actions never taken: %s' % sorted({'Request', 'ExpireAll', 'Fail', 'Recover', 'Remove'} - taken))
     # (R) spec -> code
     nbeh = 10 if thorough else 4
     seen = set()
@@ -336,7 +346,7 @@ def run(ctx):
                 ctx.violation({'kind': 'replay-' + status, 'path': wd[0], 'handler': wd[1]},
                               'world %r: the real application leaves the model: %s' % (wd, detail), {'world': list(wd), 'behaviour': [a for a, _ in beh]})
                 break
-    need = {'Request', 'ExpireAll', 'Fail', 'Recover', 'stale-served', 'fill-served', 'error'}
+    need = {'Request', 'ExpireAll', 'Fail', 'Recover', 'Remove', 'stale-served', 'fill-served', 'error'}
     if not ctx.violations and need - seen:
         raise tlc.MachineryError('vacuity: replayed behaviours never showed %s' % sorted(need - seen))
     # (T) code -> spec
